@@ -16,7 +16,7 @@ From Coq Require Import ZArith List Bool Lia.
 From Low Require Import Lib.MachInt Lib.Bits Lib.BitSeq Model.BitmapJoin Model.LegacyBitmap Spec.JoinSpec
   Proofs.JoinProofs Model.BitmapMask Spec.MaskSpec Model.BitmapGetw32 Spec.GetwSpec Proofs.GetwProofs
   Model.BitmapOf Model.BitmapSliceArray Spec.SliceArraySpec Proofs.SliceArrayProofs
-  Model.BitmapFmt Spec.FmtSpec Proofs.FmtProofs.
+  Model.BitmapFmt Spec.FmtSpec Proofs.FmtProofs Proofs.SliceLaws.
 Import ListNotations.
 Open Scope Z_scope.
 
@@ -124,6 +124,22 @@ Theorem C14_Slice_ToArray : forall ws from to, words_ok ws -> 0 <= from <= to ->
 Proof. exact SliceToArray_correct. Qed.
 Print Assumptions C14_Slice_ToArray.
 
+(** laws users rely on when they combine the functions: the full range is the identity, a slice of a
+    slice is the slice of the composed range, Join at width 64 is the identity *)
+Theorem C14_Slice_full : forall ws, words_ok ws -> Slice ws 0 (64 * zlen ws) = Some ws.
+Proof. exact Slice_full. Qed.
+Print Assumptions C14_Slice_full.
+
+Theorem C14_Slice_Slice : forall ws a b c d, words_ok ws -> 0 <= a <= b -> b <= 64 * zlen ws ->
+  0 <= c <= d -> d <= b - a ->
+  exists r1, Slice ws a b = Some r1 /\ Slice r1 c d = Slice ws (a + c) (a + d).
+Proof. exact Slice_Slice. Qed.
+Print Assumptions C14_Slice_Slice.
+
+Theorem C14_Join_64 : forall vs, words_ok vs -> Join vs 64 = Some vs.
+Proof. exact Join_64. Qed.
+Print Assumptions C14_Join_64.
+
 (** bitmap/fmt.go, the package's printer: Fmt of an integer of any of the 8 integer types prints its
     8*size binary digits (two's complement), least significant first, in groups of 8 separated by a
     space; the elements of a slice are separated by commas; a non-integer panics (an empty slice of
@@ -202,3 +218,11 @@ Example C14_Fmt_nonvacuous :
   Fmt 8 false [7] = None /\ Fmt 8 true [] = Some [] /\
   (exists s, Fmt 7 true [5; 2^63] = Some s /\ length s = 143%nat).
 Proof. vm_compute. intuition (try congruence). eexists. split; reflexivity. Qed.
+
+Example C14_laws_nonvacuous :
+  Slice [0xa5; 7] 0 128 = Some [0xa5; 7] /\
+  Slice [0xa5; 2^63 + 7] 2 127 = Some [2^63 + 2^62 + 0x29; 1] /\
+  Slice [2^63 + 2^62 + 0x29; 1] 3 70 = Slice [0xa5; 2^63 + 7] 5 72 /\
+  Slice [0xa5; 2^63 + 7] 5 72 = Some [2^61 + 2^60 + 2^59 + 5; 0] /\
+  Join [0xa5; 2^64 - 1] 64 = Some [0xa5; 2^64 - 1].
+Proof. vm_compute. intuition congruence. Qed.
